@@ -1,4 +1,5 @@
 import OapiVerif.Proofs.Prune
+import OapiVerif.Gen.Pipeline
 /-!
 C15 — Pruning keeps exactly the referenced components.
 
@@ -63,3 +64,17 @@ example : Reach exDoc ⟨"B", []⟩ :=
   .via (by decide) (.root (c := ⟨"A", ["B"]⟩) (by decide) (by decide)) (by decide)
 
 end OapiVerif.Prune
+
+namespace OapiVerif.Pipeline
+
+/-- **Pruning comes before every consumer of the document and after the filters**, in the source as it stands (the stage
+list is regenerated from codegen.go on every run): among the calls of `Generate` before its first consumer are the two
+filters followed by the pruning under `!skip-prune`, and after the first consumer nothing edits the document any more —
+so what `OperationDefinitions`, the type definitions and the inlined specification see is one and the same pruned document. -/
+theorem C15_pruning_precedes_every_consumer :
+    Gen.Pipeline.stages.takeWhile (fun s => !isConsumer s) = [.filterTag, .filterId, .pruneUnlessSkip] ∧
+    (Gen.Pipeline.stages.dropWhile (fun s => !isConsumer s)).all isConsumer = true ∧
+    Stage.consumer "operationDefinitions" ∈ Gen.Pipeline.stages ∧ Stage.consumer "typeDefinitions" ∈ Gen.Pipeline.stages := by
+  decide
+
+end OapiVerif.Pipeline
